@@ -446,7 +446,10 @@ def _hist(shard):
         # plans returned earlier in this history must be the object and the content returned now ("cached plans are returned unchanged")
         plans = [x[1] for x in allobs if x[0] == "ok" and x[1][0] == "plan"]
         if plans:
-            pnow = an.plan()
+            try:
+                pnow = an.plan()
+            except Exception as e:  # noqa: BLE001
+                return res + [(f"{tag}/plan-raises/{op[0]}", f"after {list(h)}+{op}: plan() raised {type(e).__name__}: {e} although it returned a plan earlier in this history")]
             if any(pk[1] != _plan_key(pnow) for pk in plans):
                 res.append((f"{tag}/plan-mutated/{op[0]}", f"after {list(h)}+{op}: the plan returned earlier differs in content from the plan returned now"))
             if any(pk[2] != id(pnow) for pk in plans):
